@@ -99,7 +99,7 @@ def float_texts(tier):
     exponent in a window (with and without a decimal point, the two lexer routes), plus 17-digit shortest renderings of
     non-decimal values at several magnitudes and the extremes of the format."""
     out = []
-    mants = ["1", "2", "3", "5", "7", "9", "17", "123"] if tier == "quick" else ["1", "2", "3", "4", "5", "6", "7", "8", "9", "17", "25", "123", "4503599627370497", "9007199254740993"]
+    mants = ["1", "2", "3", "5", "7", "9", "17", "123", "4503599627370497", "9007199254740993"] if tier == "quick" else ["1", "2", "3", "4", "5", "6", "7", "8", "9", "17", "25", "123", "4503599627370497", "9007199254740993"]
     exps = range(-26, 27) if tier == "quick" else range(-45, 46)
     for m in mants:
         for e in exps:
@@ -170,7 +170,8 @@ def bounds(tier):
     return {"int_operands": len(int_operands(tier)), "bases": "2..36",
             "byte_strings": "len<=1 all, len 2..3 over 16 symbols" if tier == "quick" else "len<=2 all, len 3 over 12 symbols, len 4 over 7 symbols",
             "unicode": "boundary neighbourhoods" if tier == "quick" else "every scalar value 0..0x10FFFF plus surrogates and beyond",
-            "json_values": len(json_values(tier)), "float_texts": len(float_texts(tier))}
+            "json_values": len(json_values(tier)), "float_texts": len(float_texts(tier)),
+            "long_inputs": "sizes 0..70000 (quick) / ..262145 (thorough) around 4K/8K/32K/64K/128K x {zeros, ramp, incompressible}"}
 
 
 def cases(tier, shard, nshards):
@@ -303,6 +304,21 @@ def cases(tier, shard, nshards):
         yield Case("json_decode(json_encode(%s))" % lit, dict(meta, op="literal"))
         yield Case("eval(repr(%s))" % lit, dict(meta, op="literal"))
         yield Case("json_decode(%s) == %s" % (lit_str(t), lit), dict(meta, op="law"))
+    # ---------- G: long inputs around the chunk sizes of the streaming codecs (4 KiB, 8 KiB, 32 KiB, 64 KiB, 128 KiB), three contents
+    #             (constant, periodic, incompressible multiplicative hash): every inverse pair at once
+    sizes = [0, 1, 255, 256, 4095, 4096, 4097, 8191, 8192, 8193, 32767, 32768, 32769, 40000, 65535, 65536, 65537, 70000]
+    if tier != "quick":
+        sizes += [100000, 131071, 131072, 131073, 200000, 262145]
+    for N in sizes:
+        for kind, gen in (("zeros", "bytes(0 .* %d)" % N), ("ramp", "bytes((0 til %d) map (%% 251))" % N),
+                          ("mix", "bytes((0 til %d) map (\\i -> ((i * 2654435761) %% 4294967296 // 16777216 + (i * i * 40503) %% 65536 // 256) %% 256))" % N)):
+            n += 1
+            if n % nshards != shard:
+                continue
+            prog = ("b := %s; c := decompress(compress(b)); s := utf8_decode(bytes(b map (\\q -> 32 + q %% 90))); "
+                    "[len(b), c == b, len(c), base64_decode(base64_encode(b)) == b, hex_decode(hex_encode(b)) == b, utf8_encode(s) == bytes(b map (\\q -> 32 + q %% 90)), "
+                    "json_decode(json_encode(s)) == s, len(s)]") % gen
+            yield Case(prog, {"f": "long", "N": N, "kind": kind}, opts={"fuel": 50000000, "step_ms": 60000, "compact": True, "cap": 4})
     # ---------- E: JSON-shaped values
     for (v, lit, txt) in json_values(tier):
         n += 1
@@ -377,6 +393,9 @@ def expect(m):
         if 0 <= cp < 0x110000 and not (0xd800 <= cp <= 0xdfff):
             return ("v", ["l", [["s", chr(cp)], cI(cp)]])
         return "raise"
+    if f == "long":
+        N = m["N"]
+        return ("v", ["l", [cI(N), cI(1), cI(N), cI(1), cI(1), cI(1), cI(1), cI(N)]])
     if f == "json":
         if m["op"] == "law":
             return ("v", cI(1))
@@ -398,6 +417,8 @@ def sigof(m):
     if f == "chr":
         cp = int(m["cp"])
         return "C16 chr/ord range=%s" % ("surrogate" if 0xd800 <= cp <= 0xdfff else "beyond" if cp >= 0x110000 or cp < 0 else "bmp" if cp < 0x10000 else "astral")
+    if f == "long":
+        return "C16 long input kind=%s size=%s" % (m["kind"], "<=8193" if m["N"] <= 8193 else "<=32769" if m["N"] <= 32769 else ">32769")
     if f == "json":
         return "C16 json op=%s%s" % (m["op"], " float-text" if m.get("flt") else "")
     return "C16 ?"
